@@ -471,7 +471,9 @@ func runCase(c *Case, t *truth) (vs []viol, oc outcome) {
 				if t.sizeRel != 0 {
 					why = fmt.Sprintf("source delivered %d bytes, digest says %d", len(t.data), t.size)
 				}
-				if r.lateEOF {
+				if c.Final == "EUNEXP" {
+					vs = append(vs, viol{sigp + c.Cons.Kind + ":unexpected-eof-reported-as-success", fmt.Sprintf("%s completed successfully (delivered %q) although the source delivered only %q and then failed with io.ErrUnexpectedEOF; digest %s/%s/%d (%s)", r.path, r.delivered, t.data, c.Digest.Fn, c.Digest.Hash, c.Digest.Size, why)})
+				} else if r.lateEOF {
 					add(sig+":eof-after-error", "%s returned error %v and afterwards io.EOF although the content mismatches the digest (%s)", r.path, r.err, why)
 				} else {
 					add(sig+":success-on-mismatch", "%s completed successfully (delivered %q) although the content %q mismatches the digest %s/%s/%d (%s)", r.path, r.delivered, t.data, c.Digest.Fn, c.Digest.Hash, c.Digest.Size, why)
@@ -497,7 +499,9 @@ func runCase(c *Case, t *truth) (vs []viol, oc outcome) {
 				default:
 					want = t.data
 				}
-				if r.kind != "ToProto" && !bytes.Equal(want, r.delivered) {
+				if r.kind != "ToProto" && !bytes.Equal(want, r.delivered) && c.Final == "EUNEXP" && bytes.HasPrefix(want, r.delivered) {
+					vs = append(vs, viol{sigp + c.Cons.Kind + ":unexpected-eof-reported-as-success", fmt.Sprintf("%s completed successfully but delivered only %q of %q: the bytes that arrived together with io.ErrUnexpectedEOF were dropped and the error was reported as end of data (offset %d)", r.path, r.delivered, want, r.off)})
+				} else if r.kind != "ToProto" && !bytes.Equal(want, r.delivered) {
 					add(sig+":wrong-bytes", "%s succeeded but delivered %q, want %q (content %q, offset %d)", r.path, r.delivered, want, t.data, r.off)
 				}
 			}
